@@ -318,7 +318,7 @@ class Polyline3D(Base2DIn3D):
 
     def __key(self):
         """A tuple based on the object properties, useful for hashing."""
-        return tuple(hash(pt) for pt in self._vertices) + (self._interpolated,)
+        return tuple(self._vertices) + (self._interpolated,)
 
     def __hash__(self):
         return hash(self.__key())
